@@ -193,6 +193,12 @@ def canonicalise(dotted: str, tree: ast.Module, reference: Optional[dict] = None
     applied: Dict[str, Dict[str, str]] = {}
     if not refmod:
         return applied
+    is_pkg = bool(getattr(tree, "_verif_is_pkg", False))
+    ni_ = canonical_imports(dotted, tree, refmod.get("<imports>", {}), is_pkg)
+    mc_ = inline_module_constants(tree, set(refmod.get("<globals>", [])), set(import_table(dotted, tree, is_pkg)))
+    pp_ = getattr(tree, "_verif_params", {})
+    if ni_ or mc_ or pp_:
+        applied["<module>"] = {f"{ni_} import spellings, constants {mc_}, private params {pp_}": ""}
     inl = inline_new_helpers(tree, {k for k in refmod if not k.startswith('<')})
     if inl:
         applied["<inlined helpers>"] = {x: "" for x in inl}
@@ -201,9 +207,9 @@ def canonicalise(dotted: str, tree: ast.Module, reference: Optional[dict] = None
         ref = refmod.get(q)
         if ref is None:
             continue
-        nw = while_to_for(fn)
+        nw = while_to_for(fn) + enumerate_to_range(fn)
         ni = ifexp_to_if(fn, set(keep_ifexp.get(q, [])))
-        ni += whole_array_rhs(fn)
+        ni += whole_array_rhs(fn) + nonzero_to_where(fn)
         ni += unguard_continue(fn)
         if nw or ni:
             applied.setdefault(q, {})[f"<{nw} while->for, {ni} ifexp->if>"] = ""
@@ -537,12 +543,12 @@ def inline_new_helpers(tree: ast.Module, ref_funcs: Set[str]) -> List[str]:
                     in_loop = any(isinstance(l_, (ast.For, ast.While)) and any(x is st for x in ast.walk(l_)) for l_ in ast.walk(fn))
 
                     def dead_across(name) -> bool:
-                        if in_loop or block is not fn.body:
+                        if in_loop:
                             return False
                         if isinstance(st, ast.Assign) and any(isinstance(t_, ast.Name) and t_.id == name for t_ in st.targets):
                             # the statement assigns it; the value must not also read the caller's variable of that name
                             return not any(isinstance(n_, ast.Name) and n_.id == name and isinstance(n_.ctx, ast.Load) for n_ in ast.walk(st.value) if n_ is not c)
-                        if isinstance(st, ast.Return) and block is fn.body:
+                        if isinstance(st, ast.Return):
                             # nothing runs after the call. The caller's variable may be an argument: then every read of the parameter it is bound to
                             # must come no later than the helper's first assignment to its own local of that name
                             ps = [pn_ for pn_, av_ in bound.items() if isinstance(av_, ast.Name) and av_.id == name]
@@ -768,6 +774,17 @@ def ifexp_to_if(fn: ast.FunctionDef, keep_targets: Set[str]) -> int:
     return n
 
 
+def nonzero_to_where(fn: ast.FunctionDef) -> int:
+    """`np.nonzero(c)` -> `np.where(c)` (documented as the same call)."""
+    n = 0
+    for c in ast.walk(fn):
+        if isinstance(c, ast.Call) and isinstance(c.func, ast.Attribute) and c.func.attr == "nonzero" and isinstance(c.func.value, ast.Name) and c.func.value.id in ("np", "numpy") \
+                and len(c.args) == 1 and not c.keywords:
+            c.func.attr = "where"
+            n += 1
+    return n
+
+
 def whole_array_rhs(fn: ast.FunctionDef) -> int:
     """`X[:] = Y` / `X[0:m] = Y` with Y a bare array name -> `... = Y[:]` (NumPy copies the same cells either way)."""
     subscripted = {n.value.id for n in ast.walk(fn) if isinstance(n, ast.Subscript) and isinstance(n.value, ast.Name)}
@@ -787,56 +804,330 @@ def whole_array_rhs(fn: ast.FunctionDef) -> int:
 
 def unguard_continue(fn: ast.FunctionDef) -> int:
     """Loop body `... ; if c: S ; continue ; REST`  ->  `... ; if c: S else: REST` (exact: `continue` at the end of an if-body that is a direct
-    statement of the loop body only skips REST). With S empty: `if not c: REST`."""
+    statement of the loop body only skips REST). With S empty: `if not c: REST`. Applied recursively to blocks in tail position."""
     n = 0
-    changed = True
-    while changed:
-        changed = False
-        for loop in ast.walk(fn):
-            if not isinstance(loop, (ast.For, ast.While)):
-                continue
-            # work on the loop body and, recursively, on else-branches created here (they are still "rest of the loop body")
-            stack = [loop.body]
-            while stack:
-                block = stack.pop()
-                for i, st in enumerate(block):
-                    if isinstance(st, ast.If) and st.body and isinstance(st.body[-1], ast.Continue) and not st.orelse:
-                        rest = block[i + 1:]
-                        pre = st.body[:-1]
-                        if any(isinstance(x, (ast.Continue, ast.Break)) for b in pre for x in ast.walk(b)):
-                            continue
-                        if not rest:
-                            # a trailing `continue` is a no-op
-                            st.body = pre or [ast.copy_location(ast.Pass(), st)]
-                        elif pre:
-                            st.body = pre
-                            st.orelse = rest
-                            del block[i + 1:]
-                            stack.append(st.orelse)
-                        else:
-                            st.test = negate(st.test)
-                            st.body = rest
-                            del block[i + 1:]
-                            stack.append(st.body)
-                        ast.fix_missing_locations(st)
-                        n += 1
-                        changed = True
-                        break
-                    if isinstance(st, ast.If):
-                        # `continue` nested as the last statement of an else-chain at the end of the block is handled when it becomes direct
-                        pass
-                if changed:
-                    break
-            if changed:
-                break
+
+    def process(block: List[ast.stmt]):
+        nonlocal n
+        i = 0
+        while i < len(block):
+            st = block[i]
+            if isinstance(st, ast.If) and st.body and isinstance(st.body[-1], ast.Continue) and not st.orelse:
+                pre = st.body[:-1]
+                if not any(isinstance(x, (ast.Continue, ast.Break)) for b_ in pre for x in ast.walk(b_)):
+                    rest = block[i + 1:]
+                    if not rest:
+                        st.body = pre or [ast.copy_location(ast.Pass(), st)]
+                    elif pre:
+                        st.body = pre
+                        st.orelse = rest
+                        del block[i + 1:]
+                    else:
+                        st.test = negate(st.test)
+                        st.body = rest
+                        del block[i + 1:]
+                    ast.fix_missing_locations(st)
+                    n += 1
+            i += 1
+        # tail position: the last statement's branches are still "the rest of the loop body"
+        if block and isinstance(block[-1], ast.If):
+            process(block[-1].body)
+            if block[-1].orelse:
+                process(block[-1].orelse)
+    for loop in ast.walk(fn):
+        if isinstance(loop, (ast.For, ast.While)):
+            process(loop.body)
     return n
+
+
+# ------------------------------------------------------------------ imports, module constants, enumerate, private parameters, keyword calls
+
+def _abs_module(dotted: str, level: int, module: Optional[str]) -> str:
+    """Absolute module name of a (possibly relative) `from ... import`, seen from module `dotted` (a package's __init__ is the package)."""
+    if level == 0:
+        return module or ""
+    parts = dotted.split(".")
+    base = parts[: len(parts) - level] if not dotted.endswith("__init__") else parts[: len(parts) - level + 1]
+    return ".".join(base + ([module] if module else []))
+
+
+def import_table(dotted: str, tree: ast.AST, is_pkg: bool = False) -> Dict[str, str]:
+    """local name -> qualified origin ('numba.njit', 'numpy', 'hdc.algo.ops.ws2d.ws2d') for every import statement of the module."""
+    out: Dict[str, str] = {}
+    for n in ast.walk(tree):
+        if isinstance(n, ast.Import):
+            for a in n.names:
+                if a.asname:
+                    out[a.asname] = a.name
+                else:
+                    out[a.name.split(".")[0]] = a.name.split(".")[0]
+        elif isinstance(n, ast.ImportFrom):
+            parts = dotted.split(".")
+            if n.level:
+                base = parts[: len(parts) - n.level + (1 if is_pkg else 0)]
+                mod = ".".join(base + ([n.module] if n.module else []))
+            else:
+                mod = n.module or ""
+            for a in n.names:
+                out[a.asname or a.name] = f"{mod}.{a.name}"
+    return out
+
+
+def _norm_q(q: str) -> str:
+    for a, b in (("numba.core.types.", "numba."), ("numba.types.", "numba."), ("numba.extending.", "numba."), ("numpy.core.", "numpy."), ("scipy.special._ufuncs.", "scipy.special.")):
+        if q.startswith(a):
+            q = b + q[len(a):]
+    return q
+
+
+def canonical_imports(dotted: str, tree: ast.Module, ref_imports: Dict[str, str], is_pkg: bool = False) -> int:
+    """Re-spell every reference to an imported object the way the reference module spells it (`nb.njit` -> `njit`, `numpy.zeros` -> `np.zeros`,
+    `math.log` -> `log`, `whittaker(...)` -> `ws2d(...)`). Which name an import is bound to changes nothing a user can observe."""
+    cur = import_table(dotted, tree, is_pkg)
+    if not cur or cur == ref_imports:
+        return 0
+    ref_by_q: Dict[str, str] = {}
+    for loc, q in ref_imports.items():
+        ref_by_q.setdefault(_norm_q(q), loc)
+    n_done = 0
+    # names bound as variables somewhere (function parameters / locals / module assignments) are not import references there; keep it simple:
+    # a name that is both imported and assigned anywhere in the module is left alone
+    assigned = {n.id for n in ast.walk(tree) if isinstance(n, ast.Name) and isinstance(n.ctx, ast.Store)}
+    assigned |= {a.arg for f in ast.walk(tree) if isinstance(f, (ast.FunctionDef, ast.Lambda)) for a in f.args.args + f.args.kwonlyargs}
+
+    def spell(q: str) -> Optional[ast.AST]:
+        qn = _norm_q(q)
+        if qn in ref_by_q:
+            return ast.Name(id=ref_by_q[qn], ctx=ast.Load())
+        parts = qn.split(".")
+        for cut in range(len(parts) - 1, 0, -1):
+            pref = ".".join(parts[:cut])
+            if pref in ref_by_q:
+                node: ast.AST = ast.Name(id=ref_by_q[pref], ctx=ast.Load())
+                for attr in parts[cut:]:
+                    node = ast.Attribute(value=node, attr=attr, ctx=ast.Load())
+                return node
+        return None
+
+    class T(ast.NodeTransformer):
+        def visit_Attribute(self, node):
+            chain = []
+            cur_ = node
+            while isinstance(cur_, ast.Attribute):
+                chain.append(cur_.attr)
+                cur_ = cur_.value
+            if isinstance(cur_, ast.Name) and cur_.id in cur and cur_.id not in assigned and isinstance(node.ctx, ast.Load):
+                q = cur[cur_.id] + "." + ".".join(reversed(chain))
+                # try the longest prefix that the reference can spell, keep the remaining attributes
+                parts = q.split(".")
+                for cut in range(len(parts), len(cur[cur_.id].split(".")) - 1, -1):
+                    sp = spell(".".join(parts[:cut]))
+                    if sp is not None:
+                        for attr in parts[cut:]:
+                            sp = ast.Attribute(value=sp, attr=attr, ctx=ast.Load())
+                        if ast.unparse(sp) != ast.unparse(node):
+                            nonlocal n_done
+                            n_done += 1
+                        return ast.copy_location(sp, node)
+                return node
+            return self.generic_visit(node)
+
+        def visit_Name(self, node):
+            if isinstance(node.ctx, ast.Load) and node.id in cur and node.id not in assigned:
+                sp = spell(cur[node.id])
+                if sp is not None and ast.unparse(sp) != node.id:
+                    nonlocal n_done
+                    n_done += 1
+                    return ast.copy_location(sp, node)
+            return node
+    for i, st in enumerate(tree.body):
+        if isinstance(st, (ast.Import, ast.ImportFrom)):
+            continue
+        tree.body[i] = T().visit(st)
+    if n_done:
+        # the names now used must be bound: add the reference's import statements (absolute form) in front
+        extra: List[ast.stmt] = []
+        for loc, q in sorted(ref_imports.items()):
+            if loc in cur and cur[loc] == q:
+                continue
+            if "." in q:
+                mod, name = q.rsplit(".", 1)
+                extra.append(ast.ImportFrom(module=mod, names=[ast.alias(name=name, asname=None if name == loc else loc)], level=0))
+            else:
+                extra.append(ast.Import(names=[ast.alias(name=q, asname=None if q == loc else loc)]))
+        pos = 1 if tree.body and isinstance(tree.body[0], ast.Expr) and isinstance(getattr(tree.body[0], "value", None), ast.Constant) else 0
+        tree.body[pos:pos] = extra
+        ast.fix_missing_locations(tree)
+    return n_done
+
+
+def _const_expr(e: ast.AST, imports: Set[str]) -> bool:
+    for n in ast.walk(e):
+        if isinstance(n, (ast.Constant, ast.Tuple, ast.List, ast.UnaryOp, ast.BinOp, ast.USub, ast.UAdd, ast.Add, ast.Sub, ast.Mult, ast.Div, ast.Pow, ast.Load,
+                          ast.Attribute, ast.Subscript, ast.Slice, ast.operator, ast.unaryop, ast.expr_context)):
+            continue
+        if isinstance(n, ast.Name) and n.id in imports:
+            continue
+        return False
+    return True
+
+
+def inline_module_constants(tree: ast.Module, ref_globals: Set[str], imports: Set[str]) -> List[str]:
+    """Module-level `NAME = <literal expression>` the reference module does not have is substituted wherever it is read
+    (named constants for literals, hoisted signature lists and layout strings)."""
+    import copy
+    consts: Dict[str, ast.AST] = {}
+    counts: Dict[str, int] = {}
+    for n in ast.walk(tree):
+        if isinstance(n, ast.Name) and isinstance(n.ctx, (ast.Store, ast.Del)):
+            counts[n.id] = counts.get(n.id, 0) + 1
+    for f in ast.walk(tree):
+        if isinstance(f, (ast.FunctionDef, ast.Lambda)):
+            for a in f.args.args + f.args.kwonlyargs:
+                counts[a.arg] = counts.get(a.arg, 0) + 1
+        if isinstance(f, ast.Global):
+            for nm in f.names:
+                counts[nm] = counts.get(nm, 0) + 2
+    order = []
+    for st in tree.body:
+        tgt = None
+        if isinstance(st, ast.Assign) and len(st.targets) == 1 and isinstance(st.targets[0], ast.Name):
+            tgt, val = st.targets[0].id, st.value
+        elif isinstance(st, ast.AnnAssign) and isinstance(st.target, ast.Name) and st.value is not None:
+            tgt, val = st.target.id, st.value
+        if tgt is None or tgt in ref_globals or tgt == "__all__" or counts.get(tgt, 0) != 1:
+            continue
+        # earlier constants may appear in later ones
+        val2 = _Subst(consts).visit(copy.deepcopy(val)) if consts else val
+        if _const_expr(val2, imports):
+            consts[tgt] = val2
+            order.append(tgt)
+    if not consts:
+        return []
+    sub = _Subst(consts)
+    for i, st in enumerate(tree.body):
+        if isinstance(st, (ast.Assign, ast.AnnAssign)) and (st.targets[0].id if isinstance(st, ast.Assign) and isinstance(st.targets[0], ast.Name) else
+                                                            getattr(getattr(st, "target", None), "id", None)) in consts:
+            continue
+        tree.body[i] = sub.visit(st)
+    ast.fix_missing_locations(tree)
+    return order
+
+
+def enumerate_to_range(fn: ast.FunctionDef) -> int:
+    """`for i, x in enumerate(X)` -> `for i in range(len(X)): x = X[i]; ...` (the element is fetched at the start of the iteration either way)."""
+    n_done = 0
+    for loop in ast.walk(fn):
+        if not (isinstance(loop, ast.For) and isinstance(loop.target, ast.Tuple) and len(loop.target.elts) == 2 and all(isinstance(e, ast.Name) for e in loop.target.elts)
+                and isinstance(loop.iter, ast.Call) and isinstance(loop.iter.func, ast.Name) and loop.iter.func.id == "enumerate" and len(loop.iter.args) == 1
+                and not loop.iter.keywords and isinstance(loop.iter.args[0], (ast.Name, ast.Attribute))):
+            continue
+        iv, xv = loop.target.elts[0].id, loop.target.elts[1].id
+        seq = loop.iter.args[0]
+        base = seq
+        while isinstance(base, ast.Attribute):
+            base = base.value
+        if not isinstance(base, ast.Name) or base.id in {n.id for b in loop.body for n in ast.walk(b) if isinstance(n, ast.Name) and isinstance(n.ctx, ast.Store)}:
+            continue
+        import copy
+        fetch = ast.Assign(targets=[ast.Name(id=xv, ctx=ast.Store())],
+                           value=ast.Subscript(value=copy.deepcopy(seq), slice=ast.Name(id=iv, ctx=ast.Load()), ctx=ast.Load()))
+        ast.copy_location(fetch, loop)
+        loop.target = ast.copy_location(ast.Name(id=iv, ctx=ast.Store()), loop.target)
+        loop.iter = ast.copy_location(ast.Call(func=ast.Name(id="range", ctx=ast.Load()),
+                                               args=[ast.Call(func=ast.Name(id="len", ctx=ast.Load()), args=[copy.deepcopy(seq)], keywords=[])], keywords=[]), loop.iter)
+        loop.body.insert(0, fetch)
+        ast.fix_missing_locations(loop)
+        n_done += 1
+    return n_done
+
+
+def align_private_params(tree: ast.Module, ref_params: Dict[str, List[str]], all_trees: Optional[List[ast.Module]] = None) -> Dict[str, Dict[str, str]]:
+    """Parameters of private functions (leading underscore) renamed by a maintainer are renamed back: names present on both sides stay, the others
+    pair up in order. Keyword arguments at the call sites inside the module follow. (A reordering of the parameters is left as it is.)"""
+    out: Dict[str, Dict[str, str]] = {}
+    for q, fn in _function_nodes(tree):
+        name = q.split(".")[-1]
+        if not name.startswith("_") or name.startswith("__") or q not in ref_params:
+            continue
+        cur = [a.arg for a in fn.args.args]
+        ref = ref_params[q]
+        if cur == ref or len(cur) != len(ref):
+            continue
+        if set(cur) == set(ref) and not fn.args.defaults and not fn.args.vararg and not fn.args.kwarg:
+            # same names in another order: restore the reference order at the definition and at every positional call site
+            calls = [c for t_ in (all_trees or [tree]) for c in ast.walk(t_) if isinstance(c, ast.Call) and ast.unparse(c.func).split(".")[-1] == name]
+            if all(len(c.args) == len(cur) and not c.keywords and not any(isinstance(a_, ast.Starred) for a_ in c.args) for c in calls):
+                perm = [cur.index(r) for r in ref]
+                fn.args.args = [fn.args.args[k] for k in perm]
+                for c in calls:
+                    c.args = [c.args[k] for k in perm]
+                out[q] = {"<reordered>": ",".join(ref)}
+            continue
+        common = set(cur) & set(ref)
+        cr = [c for c in cur if c not in common]
+        rr = [r for r in ref if r not in common]
+        if len(cr) != len(rr):
+            continue
+        used = {n.id for n in ast.walk(fn) if isinstance(n, ast.Name)} | set(cur)
+        m = {c: r for c, r in zip(cr, rr) if r not in used}
+        if not m:
+            continue
+        for a in fn.args.args:
+            if a.arg in m:
+                a.arg = m[a.arg]
+        _Rename(m).visit(fn)
+        for t_ in (all_trees or [tree]):
+            for c in ast.walk(t_):
+                if isinstance(c, ast.Call) and ast.unparse(c.func).split(".")[-1] == name:
+                    for kw in c.keywords:
+                        if kw.arg in m:
+                            kw.arg = m[kw.arg]
+        out[q] = m
+    return out
+
+
+def keyword_calls(tree: ast.AST) -> List[str]:
+    return sorted({f"{ast.unparse(c.func).split('.')[-1]}:{k.arg}" for c in ast.walk(tree) if isinstance(c, ast.Call) for k in c.keywords if k.arg})
+
+
+def positional_calls(tree: ast.Module, sigs: Dict[str, List[str]], keep: Optional[Set[str]] = None) -> int:
+    """`f(a, w=b, lmda=c)` -> `f(a, c, b)` for functions of the package called by keyword where the reference calls by position."""
+    n_done = 0
+    for c in ast.walk(tree):
+        if not isinstance(c, ast.Call) or not c.keywords or any(k.arg is None for k in c.keywords) or any(isinstance(a, ast.Starred) for a in c.args):
+            continue
+        name = ast.unparse(c.func).split(".")[-1]
+        params = sigs.get(name)
+        if not params or len(c.args) > len(params):
+            continue
+        kw = {k.arg: k.value for k in c.keywords}
+        if not set(kw) <= set(params[len(c.args):]):
+            continue
+        new_args = list(c.args)
+        for pn in params[len(c.args):]:
+            if pn in kw and not (keep and f"{name}:{pn}" in keep):
+                new_args.append(kw.pop(pn))
+            else:
+                break
+        if len(new_args) == len(c.args):
+            continue
+        c.args = new_args
+        c.keywords = [k for k in c.keywords if k.arg in kw]
+        n_done += 1
+    return n_done
 
 
 def ifexp_targets(fn: ast.FunctionDef) -> List[str]:
     return sorted({ast.unparse(st.targets[0]) for st in ast.walk(fn) if isinstance(st, ast.Assign) and len(st.targets) == 1 and isinstance(st.value, ast.IfExp)})
 
 
-def snapshot(tree: ast.Module) -> Dict[str, List[List[str]]]:
+def snapshot(tree: ast.Module, dotted: str = "", is_pkg: bool = False) -> Dict[str, List[List[str]]]:
     out = {q: [list(x) for x in local_bindings(fn)] for q, fn in _function_nodes(tree)}
     out["<ifexp>"] = {q: ifexp_targets(fn) for q, fn in _function_nodes(tree) if ifexp_targets(fn)}
+    out["<imports>"] = import_table(dotted, tree, is_pkg)
+    out["<kwcalls>"] = keyword_calls(tree)
+    out["<params>"] = {q: [a.arg for a in fn.args.args] for q, fn in _function_nodes(tree)}
+    out["<globals>"] = sorted({t.id for st in tree.body if isinstance(st, ast.Assign) for t in st.targets if isinstance(t, ast.Name)}
+                              | {st.target.id for st in tree.body if isinstance(st, ast.AnnAssign) and isinstance(st.target, ast.Name)})
     return out
